@@ -185,3 +185,46 @@ def contracts():
     for c in extra:
         c.prop = PROP
     return _c20_base2() + extra
+
+
+# the table behind values()/pprint is invalidated for every descendant (verified for C13)
+_c20_base3 = contracts
+
+
+def contracts():
+    from contracts import c13 as _c13
+    c = _c13.clear_cache_contract()
+    c.prop = PROP
+    return _c20_base3() + [c]
+
+
+NAME_REPLAY = '''import sys, os
+sys.path.insert(0, os.environ.get('PYVC_REPO', '/repo'))
+import param
+bad = []
+class Unit(param.Parameterized):
+    gain = param.Number(1.0)
+auto = Unit()
+# explicit names that merely CONTAIN an auto-style name (class name + five digits) are not auto-generated
+names = [auto.name + '_copy', auto.name + 'x', 'X' + auto.name, auto.name + ' ', 'my unit', 'Unit_00001', 'unit00001', 'Unit-00001']
+for n in names:
+    u = Unit(name=n, gain=2.0)
+    text = u.param.pprint()
+    try:
+        v = eval(text, {'Unit': Unit, 'param': param})
+    except Exception as e:
+        bad.append('pprint of name=%r: %r does not evaluate (%s)' % (n, text, e)); continue
+    if v.name != n or v.gain != 2.0:
+        bad.append('pprint of Unit(name=%r, gain=2.0) rebuilds name=%r gain=%r  (text: %s)' % (n, v.name, v.gain, text))
+    if dict(u.param.values(onlychanged=True)).get('name') != n:
+        bad.append('values(onlychanged=True) of Unit(name=%r) drops the explicit name' % (n,))
+if bad:
+    print('REPRODUCED: C20 an explicitly given name is not reproduced by the printed text:')
+    for b in bad[:8]:
+        print('  ', b)
+    sys.exit(1)
+print('NOT-REPRODUCED'); sys.exit(0)
+'''
+
+# probes that are not tied to one contract (run by the probe layer like the contracts' own scripts)
+PROBES = [("explicit names that extend an auto-generated name", NAME_REPLAY)]
